@@ -13,60 +13,315 @@ open Amqp.Codec Amqp.Gen.Codes
 
 /-! ## array elements: the specification's element data is what the implementation writes -/
 
-theorem sElem_facts (v : Value) (c : UInt8) (body : Bytes) (h : sElem v = some (c, body)) :
-    ∃ n, elemCode v = some n ∧ c = b8 n ∧ enc .other v = some body := by
-  cases v with
-  | bool b => simp [sElem] at h; obtain ⟨rfl, rfl⟩ := h; exact ⟨cBoolean, rfl, by decide, by cases b <;> rfl⟩
-  | fixed k bs =>
-    simp only [sElem] at h
-    split at h
-    · simp at h; obtain ⟨rfl, rfl⟩ := h
-      exact ⟨k.code, rfl, fullCode_eq k, by simp [enc, encFixed]⟩
-    · simp at h
-  | var k bs =>
-    simp only [sElem] at h
-    split at h
-    · simp at h; obtain ⟨rfl, rfl⟩ := h
-      exact ⟨k.code32, rfl, code32_eq k, by simp [enc, encVar, be32_eq]⟩
-    · simp at h
-  | null => simp [sElem] at h
-  | list _ => simp [sElem] at h
-  | map _ => simp [sElem] at h
-  | array _ => simp [sElem] at h
-  | described _ _ => simp [sElem] at h
+/-- what is needed of an element constructor and an element body for the decoder to take them -/
+structure ElemOk (v : Value) (c : UInt8) (d : Bytes) : Prop where
+  notCompound : isCompoundCode c.toNat = false
+  isCode : isCode c.toNat = true
+  notZeroWidth : zeroWidth c.toNat = false
+  nonEmpty : 1 ≤ d.length
+  dec : ∀ rest, decScalar c.toNat (d ++ rest) = some (.ok (v, rest))
 
-theorem sElems_facts (c : UInt8) (n : Nat) (hc : c = b8 n) (hn : n < 256) : ∀ (vs : List Value) (body : Bytes), sElems c vs = some body →
-    encElems false vs = some body ∧ ∀ v ∈ vs, elemCode v = some n
-  | [], body, h => by simp [sElems] at h; subst h; exact ⟨rfl, by simp⟩
-  | v :: vs, body, h => by
-    simp only [sElems, bind, Option.bind] at h
-    cases he : sElem v with
+theorem sFixed_elem (form : Nat) (k : FixedKind) (bs : Bytes) (c : UInt8) (d : Bytes)
+    (h : sFixed form k bs = some (c :: d)) (hf : form ≠ 2) (hch : k = .char → validChar bs = true) :
+    ElemOk (.fixed k bs) c d := by
+  unfold sFixed at h
+  split at h
+  · simp at h
+  · rename_i hlen
+    have hw : bs.length = k.width := by rw [← width_eq]; simpa using hlen
+    split at h
+    · -- full width
+      simp at h; obtain ⟨rfl, rfl⟩ := h
+      obtain ⟨c1, c2, c3⟩ := fixed_codes k
+      rw [fullCode_eq]
+      have hz : zeroWidth k.code = false := by cases k <;> decide
+      refine ⟨by rw [b8_toNat _ c1]; exact c3, by rw [b8_toNat _ c1]; exact c2, by rw [b8_toNat _ c1]; exact hz,
+        by rw [hw]; exact width_pos k, ?_⟩
+      intro rest; rw [b8_toNat _ c1]; exact decScalar_fixed k bs rest hw hch
+    · -- one byte
+      split at h
+      · rename_i x
+        simp at h; obtain ⟨rfl, rfl⟩ := h
+        refine ⟨by decide, by decide, by decide, by simp, ?_⟩
+        intro rest
+        show decScalar cSmallUint _ = _
+        simp [decScalar, cSmallUint, cUint0, cUlong0, cNull, cBooleanTrue, cBooleanFalse, cBoolean,
+          next?, bind, Except.bind, pure, Except.pure]
+      · rename_i x
+        simp at h; obtain ⟨rfl, rfl⟩ := h
+        refine ⟨by decide, by decide, by decide, by simp, ?_⟩
+        intro rest
+        show decScalar cSmallUlong _ = _
+        simp [decScalar, cSmallUlong, cSmallUint, cUint0, cUlong0, cNull, cBooleanTrue, cBooleanFalse, cBoolean,
+          next?, bind, Except.bind, pure, Except.pure]
+      · rename_i a b c' x
+        split at h
+        · rename_i hz
+          obtain ⟨h1, h2, h3⟩ := hz
+          subst h1 h2 h3
+          simp at h; obtain ⟨rfl, rfl⟩ := h
+          refine ⟨by decide, by decide, by decide, by simp, ?_⟩
+          intro rest
+          show decScalar cSmallInt _ = _
+          simp [decScalar, cSmallInt, cSmallUlong, cSmallUint, cUint0, cUlong0, cNull, cBooleanTrue,
+            cBooleanFalse, cBoolean, next?, bind, Except.bind, pure, Except.pure, sx_eq]
+        · simp at h
+      · rename_i a b c' x e' f g hh
+        split at h
+        · rename_i hz
+          obtain ⟨h1, h2, h3, h4, h5, h6, h7⟩ := hz
+          subst h1 h2 h3 h4 h5 h6 h7
+          simp at h; obtain ⟨rfl, rfl⟩ := h
+          refine ⟨by decide, by decide, by decide, by simp, ?_⟩
+          intro rest
+          show decScalar cSmallLong _ = _
+          simp [decScalar, cSmallLong, cSmallInt, cSmallUlong, cSmallUint, cUint0, cUlong0, cNull, cBooleanTrue,
+            cBooleanFalse, cBoolean, next?, bind, Except.bind, pure, Except.pure, sx_eq]
+        · simp at h
+      · simp at h
+    · exact absurd rfl hf
+    · simp at h
+
+theorem sVar_elem (ew : Bool) (k : VarKind) (bs : Bytes) (c : UInt8) (d : Bytes)
+    (h : sVar ew k bs = some (c :: d)) (hu : k ≠ .binary → validUtf8 bs = true) :
+    ElemOk (.var k bs) c d := by
+  obtain ⟨a1, a2, a3, b1, b2, b3⟩ := var_codes k
+  unfold sVar at h
+  cases ew with
+  | true =>
+    simp only [if_true] at h
+    split at h
+    · rename_i hl
+      simp at h; obtain ⟨rfl, rfl⟩ := h
+      rw [code32_eq, be32_eq]
+      have hz : zeroWidth k.code32 = false := by cases k <;> decide
+      refine ⟨by rw [b8_toNat _ b1]; exact b3, by rw [b8_toNat _ b1]; exact b2, by rw [b8_toNat _ b1]; exact hz,
+        by simp [Codec.be32], ?_⟩
+      intro rest; rw [b8_toNat _ b1]
+      have := decScalar_var32 k (Codec.be32 bs.length) bs rest rfl (fromBe_be32 _ hl) hu
+      simpa [List.append_assoc] using this
+    · simp at h
+  | false =>
+    simp only [Bool.false_eq_true, if_false] at h
+    split at h
+    · rename_i hl
+      simp at h; obtain ⟨rfl, rfl⟩ := h
+      rw [code8_eq]
+      have hz : zeroWidth k.code8 = false := by cases k <;> decide
+      refine ⟨by rw [b8_toNat _ a1]; exact a3, by rw [b8_toNat _ a1]; exact a2, by rw [b8_toNat _ a1]; exact hz,
+        by simp, ?_⟩
+      intro rest; rw [b8_toNat _ a1]
+      have := decScalar_var8 k bs rest hl hu
+      simpa [b8] using this
+    · simp at h
+
+/-- every element choice the specification permits gives a constructor and a body the decoder takes -/
+theorem sElemF_ok (form : Nat) (ew : Bool) (v : Value) (c : UInt8) (d : Bytes)
+    (h : sElemF form ew v = some (c, d)) (hw : WF v) : ElemOk v c d := by
+  cases v with
+  | bool b =>
+    simp [sElemF] at h; obtain ⟨rfl, rfl⟩ := h
+    refine ⟨by decide, by decide, by decide, by simp, ?_⟩
+    intro rest
+    exact decScalar_boolean b rest
+  | fixed k bs =>
+    simp only [sElemF] at h
+    split at h
+    · simp at h
+    · rename_i hf
+      cases hs : sFixed form k bs with
+      | none => simp [hs] at h
+      | some e =>
+        cases e with
+        | nil => simp [hs] at h
+        | cons c' d' =>
+          simp [hs] at h; obtain ⟨rfl, rfl⟩ := h
+          exact sFixed_elem form k bs c' d' hs hf hw.2
+  | var k bs =>
+    simp only [sElemF] at h
+    cases hs : sVar ew k bs with
+    | none => simp [hs] at h
+    | some e =>
+      cases e with
+      | nil => simp [hs] at h
+      | cons c' d' =>
+        simp [hs] at h; obtain ⟨rfl, rfl⟩ := h
+        exact sVar_elem ew k bs c' d' hs hw.1
+  | null => simp [sElemF] at h
+  | list _ => simp [sElemF] at h
+  | map _ => simp [sElemF] at h
+  | array _ => simp [sElemF] at h
+  | described _ _ => simp [sElemF] at h
+
+
+/-- an array's elements under any permitted element choice are taken by `ArrayAccess` one after the other -/
+theorem decArr_spec (form : Nat) (ew : Bool) (c : UInt8) : ∀ (vs : List Value), WFAll vs →
+    ∀ (body tail : Bytes), sElemsF form ew c vs = some body →
+    ∀ (fuel depth zw startLen size : Nat), vs.length + 1 ≤ fuel → startLen ≤ size + tail.length →
+    decArr fuel depth vs.length ⟨body ++ tail, some c.toNat, zw⟩ startLen size = .ok (vs, ⟨tail, none, zw⟩)
+  | [], _, body, tail, h, fuel, depth, zw, startLen, size, hf, _ => by
+    simp [sElemsF] at h; subst h
+    cases fuel with
+    | zero => omega
+    | succ f => simp [decArr, pure, Except.pure]
+  | v :: vs, hall, body, tail, h, fuel, depth, zw, startLen, size, hf, hs => by
+    simp only [sElemsF, bind, Option.bind] at h
+    cases he : sElemF form ew v with
     | none => simp [he] at h
     | some cb =>
-      obtain ⟨c', b⟩ := cb
+      obtain ⟨c', d⟩ := cb
       simp only [he] at h
       split at h
       · simp at h
       · rename_i hcc
         have hcc' : c' = c := by simpa using hcc
         subst hcc'
-        cases hr : sElems c' vs with
+        cases hr : sElemsF form ew c' vs with
         | none => simp [hr] at h
         | some rest =>
           simp [hr] at h; subst h
-          obtain ⟨m, hm, hcm, ho⟩ := sElem_facts v c' b he
-          have hmn : m = n := by
-            have h1 := (elem_facts v m hm).1
-            have : b8 m = b8 n := by rw [← hcm, hc]
-            have := congrArg UInt8.toNat this
-            rwa [b8_toNat m h1, b8_toNat n hn] at this
-          subst hmn
-          obtain ⟨ih1, ih2⟩ := sElems_facts c' m hc hn vs rest hr
-          refine ⟨by simp [encElems, ho, ih1, bind, Option.bind], ?_⟩
-          intro w hw
-          rcases List.mem_cons.mp hw with rfl | hw
-          · exact hm
-          · exact ih2 w hw
+          have hw : WF v ∧ WFAll vs := hall
+          have ok := sElemF_ok form ew v c' d he hw.1
+          cases fuel with
+          | zero => omega
+          | succ f =>
+            cases f with
+            | zero => simp at hf
+            | succ f' =>
+              have hd := dec_elem f' depth c'.toNat (d ++ (rest ++ tail)) zw v (rest ++ tail) ok.notCompound
+                (ok.dec (rest ++ tail))
+              have ih := decArr_spec form ew c' vs hw.2 rest tail hr (f' + 1) depth zw startLen size
+                (by simp at hf ⊢; omega) hs
+              have hsz : ¬ (startLen - (rest ++ tail).length > size) := by
+                simp only [List.length_append]; omega
+              simp only [List.length_cons, decArr, List.append_assoc, hd, bind, Except.bind, hsz, if_false, ih,
+                pure, Except.pure]
+
+/-- the data of an element is never empty (no zero-width element constructor among the choices) -/
+theorem sElemF_body_ne (form : Nat) (ew : Bool) (v : Value) (c : UInt8) (d : Bytes)
+    (h : sElemF form ew v = some (c, d)) : 1 ≤ d.length := by
+  cases v with
+  | bool b => simp [sElemF] at h; rw [← h.2]; simp
+  | fixed k bs =>
+    simp only [sElemF] at h
+    split at h
+    · simp at h
+    · rename_i hf
+      cases hs : sFixed form k bs with
+      | none => simp [hs] at h
+      | some e =>
+        cases e with
+        | nil => simp [hs] at h
+        | cons c' d' =>
+          simp [hs] at h; obtain ⟨rfl, rfl⟩ := h
+          unfold sFixed at hs
+          split at hs
+          · simp at hs
+          · rename_i hlen
+            split at hs
+            · simp at hs; rw [← hs.2]
+              have : bs.length = width k := by simpa using hlen
+              rw [this, width_eq]; exact width_pos k
+            · split at hs <;> (try split at hs) <;> simp at hs <;> (try (rw [← hs.2]; simp))
+            · exact absurd rfl hf
+            · simp at hs
+  | var k bs =>
+    simp only [sElemF] at h
+    cases hs : sVar ew k bs with
+    | none => simp [hs] at h
+    | some e =>
+      cases e with
+      | nil => simp [hs] at h
+      | cons c' d' =>
+        simp [hs] at h; obtain ⟨rfl, rfl⟩ := h
+        unfold sVar at hs
+        cases ew <;> simp at hs <;> obtain ⟨_, _, rfl⟩ := hs <;> simp [CodecSpec.be32]
+  | null => simp [sElemF] at h
+  | list _ => simp [sElemF] at h
+  | map _ => simp [sElemF] at h
+  | array _ => simp [sElemF] at h
+  | described _ _ => simp [sElemF] at h
+
+theorem sElemsF_len (form : Nat) (ew : Bool) (c : UInt8) : ∀ (vs : List Value) (body : Bytes),
+    sElemsF form ew c vs = some body → vs.length ≤ body.length
+  | [], body, h => by simp
+  | v :: vs, body, h => by
+    simp only [sElemsF, bind, Option.bind] at h
+    cases he : sElemF form ew v with
+    | none => simp [he] at h
+    | some cb =>
+      obtain ⟨c', d⟩ := cb
+      simp only [he] at h
+      split at h
+      · simp at h
+      · cases hr : sElemsF form ew c vs with
+        | none => simp [hr] at h
+        | some rest =>
+          simp [hr] at h; subst h
+          have := sElemsF_len form ew c vs rest hr
+          have hb := sElemF_body_ne form ew v c' d he
+          simp only [List.length_cons, List.length_append]; omega
+
+theorem sElemsF_cost (form : Nat) (ew : Bool) (c : UInt8) : ∀ (vs : List Value) (body : Bytes),
+    sElemsF form ew c vs = some body → costAll vs = 2 * vs.length + 1
+  | [], body, h => by simp [costAll]
+  | v :: vs, body, h => by
+    simp only [sElemsF, bind, Option.bind] at h
+    cases he : sElemF form ew v with
+    | none => simp [he] at h
+    | some cb =>
+      simp only [he] at h
+      split at h
+      · simp at h
+      · cases hr : sElemsF form ew c vs with
+        | none => simp [hr] at h
+        | some rest =>
+          have ih := sElemsF_cost form ew c vs rest hr
+          have hc : cost v = 1 := by
+            cases v <;> simp [sElemF] at he <;> simp [cost]
+          simp only [costAll, hc, ih, List.length_cons]; omega
+
+/-- the first element decides the constructor: it is the one `sElemsF` is run with -/
+theorem sElemF_default (v : Value) (n : Nat) (hn : elemCode v = some n) (hw : WF v) (bd : Bytes)
+    (he : enc .other v = some bd) : sElemF 0 true v = some (b8 n, bd) := by
+  cases v with
+  | bool b =>
+    simp [elemCode] at hn; subst hn
+    simp [enc, encBool] at he; subst he
+    cases b <;> rfl
+  | fixed k bs =>
+    simp [elemCode] at hn; subst hn
+    simp [enc, encFixed] at he; subst he
+    have : bs.length = width k := by rw [width_eq]; exact hw.1
+    simp [sElemF, sFixed, this, fullCode_eq]
+  | var k bs =>
+    simp [elemCode] at hn; subst hn
+    simp [enc, encVar] at he; subst he
+    have : bs.length < 4294967296 := hw.2
+    simp [sElemF, sVar, this, code32_eq, be32_eq]
+  | null => simp [elemCode] at hn
+  | list _ => simp [elemCode] at hn
+  | map _ => simp [elemCode] at hn
+  | array _ => simp [elemCode] at hn
+  | described _ _ => simp [elemCode] at hn
+
+theorem sElemsF_default (n : Nat) : ∀ (vs : List Value), (∀ v ∈ vs, elemCode v = some n ∧ WF v) →
+    ∀ (body : Bytes), encElems false vs = some body → sElemsF 0 true (b8 n) vs = some body
+  | [], _, body, h => by simp [encElems] at h; subst h; rfl
+  | v :: vs, hall, body, h => by
+    simp only [encElems, Bool.false_eq_true, if_false, bind, Option.bind] at h
+    cases h1 : enc .other v with
+    | none => simp [h1] at h
+    | some a =>
+      cases h2 : encElems false vs with
+      | none => simp [h1, h2] at h
+      | some b =>
+        simp [h1, h2] at h; subst h
+        obtain ⟨hc, hw⟩ := hall v (by simp)
+        have hs := sElemF_default v n hc hw a h1
+        have ih := sElemsF_default n vs (fun w hw' => hall w (by simp [hw'])) b h2
+        simp [sElemsF, hs, ih, bind, Option.bind]
+
 
 theorem dec_array32_empty (fuel depth zw : Nat) (lb nb tail : Bytes) (hlb : lb.length = 4) (hnb : nb.length = 4)
     (hfn : fromBe nb = 0) (hd : 0 < depth) :
@@ -77,42 +332,6 @@ theorem dec_array32_empty (fuel depth zw : Nat) (lb nb tail : Bytes) (hlb : lb.l
   have hA : isCode 240 = true := by decide
   simp [dec, codeOrPeek, codeOrRead, b8_toNat, cList8, cList0, cList32, cMap8, cMap32, cArray8, cArray32,
     cDescribedType, hA, h1, h2, hfn, hd', MAX_ARRAY_COUNT, bind, Except.bind, pure, Except.pure]
-
-theorem sElems_len (c : UInt8) : ∀ (vs : List Value) (body : Bytes), sElems c vs = some body → vs.length ≤ body.length
-  | [], body, h => by simp
-  | v :: vs, body, h => by
-    simp only [sElems, bind, Option.bind] at h
-    cases he : sElem v with
-    | none => simp [he] at h
-    | some cb =>
-      obtain ⟨c', b⟩ := cb
-      simp only [he] at h
-      split at h
-      · simp at h
-      · cases hr : sElems c vs with
-        | none => simp [hr] at h
-        | some rest =>
-          simp [hr] at h; subst h
-          have := sElems_len c vs rest hr
-          have hb : 1 ≤ b.length := by
-            cases v with
-            | bool x => simp [sElem] at he; rw [← he.2]; simp
-            | fixed k bs =>
-              simp only [sElem] at he
-              split at he
-              · rename_i hl; simp at he; rw [← he.2, hl, width_eq]; exact width_pos k
-              · simp at he
-            | var k bs =>
-              simp only [sElem] at he
-              split at he
-              · simp at he; rw [← he.2]; simp [CodecSpec.be32]
-              · simp at he
-            | null => simp [sElem] at he
-            | list _ => simp [sElem] at he
-            | map _ => simp [sElem] at he
-            | array _ => simp [sElem] at he
-            | described _ _ => simp [sElem] at he
-          simp only [List.length_cons, List.length_append]; omega
 
 /-! ## the first byte of a descriptor -/
 
@@ -210,11 +429,11 @@ theorem sEnc_ne : ∀ (ch : Ch) (v : Value) (e : Bytes), sEnc ch v = some e → 
         cases wide <;> simp at h <;> subst h <;> simp
       | cons v ws =>
         simp only [sEnc, bind, Option.bind] at h
-        cases he : sElem v with
+        cases he : sElemF (elemChoice cs).1 (elemChoice cs).2 v with
         | none => simp [he] at h
         | some cb =>
           simp only [he] at h
-          cases hb : sElems cb.1 (v :: ws) with
+          cases hb : sElemsF (elemChoice cs).1 (elemChoice cs).2 cb.1 (v :: ws) with
           | none => simp [hb] at h
           | some body =>
             simp only [hb] at h
@@ -402,25 +621,27 @@ mutual
               exact dec_array8_empty f depth zw 1 tail (by decide) hdep
           | cons v ws =>
             simp only [sEnc, bind, Option.bind] at he
-            cases hel : sElem v with
+            cases hel : sElemF (elemChoice cs).1 (elemChoice cs).2 v with
             | none => simp [hel] at he
             | some cb =>
               obtain ⟨c, b0⟩ := cb
               simp only [hel] at he
-              cases hbody : sElems c (v :: ws) with
+              cases hbody : sElemsF (elemChoice cs).1 (elemChoice cs).2 c (v :: ws) with
               | none => simp [hbody] at he
               | some body =>
                 simp only [hbody] at he
-                obtain ⟨n, hn, hcn, _⟩ := sElem_facts v c b0 hel
-                obtain ⟨c1, c2, c3, _⟩ := elem_facts v n hn
-                obtain ⟨hencE, hcodes⟩ := sElems_facts c n hcn c1 (v :: ws) body hbody
-                have hall : ∀ w ∈ v :: ws, elemCode w = some n ∧ WF w :=
-                  fun w hw2 => ⟨hcodes w hw2, WFAll_mem _ hw'.1 w hw2⟩
-                have hcount := sElems_len c (v :: ws) body hbody
-                have harr := decArr_simple n (v :: ws) hall body tail hencE f (depth - 1) zw
+                have hwv : WF v := WFAll_mem _ hw'.1 v (by simp)
+                have ok := sElemF_ok _ _ v c b0 hel hwv
+                have c1 : c.toNat < 256 := c.toNat_lt
+                have c2 := ok.isCode
+                have c3 := ok.notZeroWidth
+                have hcount := sElemsF_len _ _ c (v :: ws) body hbody
+                have harr := decArr_spec _ _ c (v :: ws) hw'.1 body tail hbody f (depth - 1) zw
                   (body ++ tail).length body.length
                   (by have := costAll_ge (v :: ws); simp only [cost] at hf; omega)
                   (by simp only [List.length_append]; omega)
+                have hcn : c = b8 c.toNat := by simp [b8]
+                generalize hn : c.toNat = n at *
                 subst hcn
                 split at he
                 · split at he
@@ -520,24 +741,6 @@ end
 
 /-! ## the decoder's fuel is enough for any permitted encoding -/
 
-theorem sElems_cost (c : UInt8) : ∀ (vs : List Value) (body : Bytes), sElems c vs = some body → costAll vs = 2 * vs.length + 1
-  | [], body, h => by simp [costAll]
-  | v :: vs, body, h => by
-    simp only [sElems, bind, Option.bind] at h
-    cases he : sElem v with
-    | none => simp [he] at h
-    | some cb =>
-      simp only [he] at h
-      split at h
-      · simp at h
-      · cases hr : sElems c vs with
-        | none => simp [hr] at h
-        | some rest =>
-          have ih := sElems_cost c vs rest hr
-          have hc : cost v = 1 := by
-            cases v <;> simp [sElem] at he <;> simp [cost]
-          simp only [costAll, hc, ih, List.length_cons]; omega
-
 mutual
   theorem sEnc_cost : ∀ (v : Value) (ch : Ch) (e : Bytes), sEnc ch v = some e → cost v + 1 ≤ 4 * e.length
     | .null, ch, e, h => by have := sEnc_ne ch _ e h; simp only [cost]; omega
@@ -601,16 +804,16 @@ mutual
           cases wide <;> simp at h <;> subst h <;> simp [cost, costAll, CodecSpec.be32]
         | cons v ws =>
           simp only [sEnc, bind, Option.bind] at h
-          cases hel : sElem v with
+          cases hel : sElemF (elemChoice cs).1 (elemChoice cs).2 v with
           | none => simp [hel] at h
           | some cb =>
             simp only [hel] at h
-            cases hbody : sElems cb.1 (v :: ws) with
+            cases hbody : sElemsF (elemChoice cs).1 (elemChoice cs).2 cb.1 (v :: ws) with
             | none => simp [hbody] at h
             | some body =>
               simp only [hbody] at h
-              have hc := sElems_cost cb.1 (v :: ws) body hbody
-              have hl := sElems_len cb.1 (v :: ws) body hbody
+              have hc := sElemsF_cost _ _ cb.1 (v :: ws) body hbody
+              have hl := sElemsF_len _ _ cb.1 (v :: ws) body hbody
               split at h
               · split at h
                 · cases h; simp only [cost, hc, List.length_cons, List.length_append, CodecSpec.be32] at hl ⊢; simp; omega
@@ -655,46 +858,6 @@ end
 
 
 /-! ## what the encoder writes is one of the permitted encodings -/
-
-theorem sElem_of_enc (v : Value) (n : Nat) (hn : elemCode v = some n) (hw : WF v) (bd : Bytes)
-    (he : enc .other v = some bd) : sElem v = some (b8 n, bd) := by
-  cases v with
-  | bool b =>
-    simp [elemCode] at hn; subst hn
-    simp [enc, encBool] at he; subst he
-    cases b <;> rfl
-  | fixed k bs =>
-    simp [elemCode] at hn; subst hn
-    simp [enc, encFixed] at he; subst he
-    have : bs.length = width k := by rw [width_eq]; exact hw.1
-    simp [sElem, this, fullCode_eq]
-  | var k bs =>
-    simp [elemCode] at hn; subst hn
-    simp [enc, encVar] at he; subst he
-    have : bs.length < 4294967296 := hw.2
-    simp [sElem, this, code32_eq, be32_eq]
-  | null => simp [elemCode] at hn
-  | list _ => simp [elemCode] at hn
-  | map _ => simp [elemCode] at hn
-  | array _ => simp [elemCode] at hn
-  | described _ _ => simp [elemCode] at hn
-
-theorem sElems_of_enc (n : Nat) : ∀ (vs : List Value), (∀ v ∈ vs, elemCode v = some n ∧ WF v) →
-    ∀ (body : Bytes), encElems false vs = some body → sElems (b8 n) vs = some body
-  | [], _, body, h => by simp [encElems] at h; subst h; rfl
-  | v :: vs, hall, body, h => by
-    simp only [encElems, Bool.false_eq_true, if_false, bind, Option.bind] at h
-    cases h1 : enc .other v with
-    | none => simp [h1] at h
-    | some a =>
-      cases h2 : encElems false vs with
-      | none => simp [h1, h2] at h
-      | some b =>
-        simp [h1, h2] at h; subst h
-        obtain ⟨hc, hw⟩ := hall v (by simp)
-        have hs := sElem_of_enc v n hc hw a h1
-        have ih := sElems_of_enc n vs (fun w hw' => hall w (by simp [hw'])) b h2
-        simp [sElems, hs, ih, bind, Option.bind]
 
 mutual
   theorem enc_is_spec : ∀ (v : Value), WF v → ∀ (e : Bytes), enc .none v = some e → ∃ ch, sEnc ch v = some e
@@ -858,8 +1021,8 @@ mutual
               simp at hfirst; subst hfirst
               have hel : encElems false (v :: ws) = some (ao0 ++ b) := by
                 simp [encElems, hao0, h2, bind, Option.bind]
-              have hs1 := sElem_of_enc v c (hc v (by simp)) (hall v (by simp)).2 ao0 hao0
-              have hs2 := sElems_of_enc c (v :: ws) hall (ao0 ++ b) hel
+              have hs1 := sElemF_default v c (hc v (by simp)) (hall v (by simp)).2 ao0 hao0
+              have hs2 := sElemsF_default c (v :: ws) hall (ao0 ++ b) hel
               have hcount := encElems_len false (v :: ws) hw'.1 (ao0 ++ b) hel
               unfold writeArray at he
               split at he
@@ -869,7 +1032,7 @@ mutual
                 have c1 : ao0.length + b.length + 2 < 256 := by omega
                 have c2 : ws.length + 1 < 256 := by simp only [List.length_cons, List.length_append] at hcount; omega
                 exact ⟨.node false false [], by
-                  simp only [sEnc, hs1, hs2, bind, Option.bind, Bool.false_eq_true, if_false,
+                  simp only [sEnc, elemChoice, hs1, hs2, bind, Option.bind, Bool.false_eq_true, if_false,
                     Ctx.writesCode, List.length_cons, List.length_append, List.cons_append, List.nil_append,
                     List.singleton_append, List.append_assoc]
                   rw [if_pos ⟨c1, c2⟩]
@@ -881,7 +1044,7 @@ mutual
                   have c1 : ao0.length + b.length + 5 < 4294967296 := by omega
                   have c2 : ws.length + 1 < 4294967296 := by have := hw'.2.1; simp [MAX_ARRAY_COUNT] at this ⊢; omega
                   exact ⟨.node true false [], by
-                    simp only [sEnc, hs1, hs2, bind, Option.bind, if_true,
+                    simp only [sEnc, elemChoice, hs1, hs2, bind, Option.bind, if_true,
                       Ctx.writesCode, List.length_cons, List.length_append, List.cons_append, List.nil_append,
                       List.singleton_append, List.append_assoc, be32_eq]
                     rw [if_pos ⟨c1, c2⟩]
@@ -942,6 +1105,21 @@ theorem every_variant_accepted (v : Value) (hw : WF v) (hn : nest v ≤ MAX_NEST
 
 
 /-! ## non-vacuity, and the recorded exception -/
+
+/-- an array written with the one-byte integer constructor and an 8-bit header, and an array of
+    strings with 8-bit lengths: both are encodings the specification gives for these choices, and both
+    are accepted (the encoder itself never writes them) -/
+example : sEnc (.node false false [.leaf 1 false]) (.array [.fixed .uint [0, 0, 0, 5], .fixed .uint [0, 0, 0, 6]]) =
+    some [0xe0, 0x04, 0x02, 0x52, 0x05, 0x06] := by decide
+example : sEnc (.node true false [.leaf 0 false]) (.array [.var .string [104, 105], .var .string [33]]) =
+    some [0xf0, 0, 0, 0, 10, 0, 0, 0, 2, 0xa1, 2, 104, 105, 1, 33] := by decide
+example : decode ([0xe0, 0x04, 0x02, 0x52, 0x05, 0x06] ++ [0x99]) =
+    .ok (.array [.fixed .uint [0, 0, 0, 5], .fixed .uint [0, 0, 0, 6]], [0x99]) :=
+  every_variant_accepted (.array [.fixed .uint [0, 0, 0, 5], .fixed .uint [0, 0, 0, 6]])
+    (by simp [WF, WFAll, SameSimple, elemCode, FixedKind.width, MAX_ARRAY_COUNT])
+    (by simp [nest, nestAll, MAX_NESTING_DEPTH])
+    (.node false false [.leaf 1 false]) [0xe0, 0x04, 0x02, 0x52, 0x05, 0x06] [0x99] (by decide)
+
 
 /-- a nested value written with none of the encoder's own choices (32-bit headers, one-byte
     boolean, full-width zero, 32-bit string length) is accepted -/
